@@ -565,29 +565,7 @@ func (c *Ctx) poolSharedRule(rule string, pkg *types.Package) {
 				return
 			}
 			obj := stripConv(ci.Common().Args[1])
-			shared := false
-			if refs := obj.Referrers(); refs != nil {
-				for _, ref := range *refs {
-					switch x := ref.(type) {
-					case *ssa.Send:
-						if stripConv(x.X) == obj {
-							shared = true
-						}
-					case *ssa.Select:
-						for _, st := range x.States {
-							if st.Send != nil && stripConv(st.Send) == obj {
-								shared = true
-							}
-						}
-					case *ssa.MakeInterface, *ssa.ChangeInterface:
-						for _, r2 := range *x.(ssa.Value).Referrers() {
-							if s, ok := r2.(*ssa.Send); ok && s.X == x.(ssa.Value) {
-								shared = true
-							}
-						}
-					}
-				}
-			}
+			shared := c.pooledMemoryHandedOff(fn, in, obj)
 			construct := fmt.Sprintf("%s: pooled object", fname(fn))
 			c.check(!shared, rule, construct, c.ipos(in), "not shared over a channel", "an object that was handed to another goroutine over a channel is returned to a sync.Pool when this function ends: the receiver keeps using it while the next request re-initialises it — a reader past EOF then yields another call's bytes")
 			// memory of the pooled object must not outlive the Put: returning buf.Bytes() (or the object)
@@ -609,6 +587,117 @@ func (c *Ctx) poolSharedRule(rule string, pkg *types.Package) {
 			c.check(!escapes, rule, construct+" (returned memory)", c.ipos(in), "nothing derived from the pooled object is returned", "memory of an object that is put back into a sync.Pool is returned to the caller (e.g. buf.Bytes() with a deferred Put): the next user of the pool overwrites it while the caller still writes it out — replies of concurrent requests get mixed up or malformed")
 		})
 	}
+}
+
+// pooledMemoryHandedOff: the object put back by `put` (in fn, possibly a deferred closure of the
+// function that took it out of the pool), or memory derived from it (buf.Bytes()), is sent on a
+// channel somewhere in the same function family. Copies cut the dependence (append to a nil or
+// fresh slice, bytes.Clone, conversion to or from string); values of basic type carry no memory. A
+// plain (not deferred) Put that the send can only reach through a blocking wait (a receive or
+// WaitGroup.Wait) is a synchronous hand-off and is accepted.
+func (c *Ctx) pooledMemoryHandedOff(fn *ssa.Function, put ssa.Instruction, obj ssa.Value) bool {
+	fam := withAnon(outermost(fn))
+	cut := map[ssa.Value]bool{}
+	gets := map[ssa.Value]bool{}
+	for _, f := range fam {
+		allInstrs(f, func(in ssa.Instruction) {
+			if v, ok := in.(ssa.Value); ok && v.Type() != nil && isErrorType(v.Type()) {
+				cut[v] = true // an error reported by an operation on the buffer does not carry its memory
+			}
+			switch x := in.(type) {
+			case *ssa.Call:
+				switch calleeName(x) {
+				case "(*sync.Pool).Get":
+					gets[x] = true
+				case "bytes.Clone", "slices.Clone", "strings.Clone":
+					cut[x] = true
+				}
+				if b, ok := x.Common().Value.(*ssa.Builtin); ok && b.Name() == "append" && len(x.Common().Args) > 0 {
+					a0 := x.Common().Args[0]
+					if isNilConst(a0) {
+						cut[x] = true
+					} else if _, fresh := a0.(*ssa.MakeSlice); fresh {
+						cut[x] = true
+					} else if sl, ok := a0.(*ssa.Slice); ok {
+						if _, fresh := sl.X.(*ssa.MakeSlice); fresh {
+							cut[x] = true
+						}
+					}
+				}
+			case *ssa.Convert:
+				if isStringType(x.Type()) || isStringType(x.X.Type()) {
+					cut[x] = true
+				}
+			}
+		})
+	}
+	// the pool acquisitions this object comes from
+	mine := map[ssa.Value]bool{}
+	for g := range gets {
+		g := g
+		if c.dependsOn(obj, func(v ssa.Value) bool { return v == g }, 0, map[ssa.Value]bool{}) {
+			mine[g] = true
+		}
+	}
+	target := func(v ssa.Value) bool { return v == obj || stripConv(v) == obj || mine[v] }
+	derived := func(v ssa.Value) bool {
+		if v == nil {
+			return false
+		}
+		if _, basic := v.Type().Underlying().(*types.Basic); basic {
+			return false
+		}
+		seen := map[ssa.Value]bool{}
+		for k := range cut {
+			seen[k] = true
+		}
+		return c.dependsOn(v, target, 0, seen)
+	}
+	_, deferredPut := put.(*ssa.Defer)
+	if fn != outermost(fn) {
+		deferredPut = true // a closure of the owner: runs at some later point of it
+	}
+	waits := func(in ssa.Instruction) bool {
+		switch x := in.(type) {
+		case *ssa.UnOp:
+			return x.Op == token.ARROW
+		case *ssa.Select:
+			return x.Blocking
+		case *ssa.Call:
+			return calleeName(x) == "(*sync.WaitGroup).Wait"
+		}
+		return false
+	}
+	for _, f := range fam {
+		found := false
+		allInstrs(f, func(in ssa.Instruction) {
+			var sent ssa.Value
+			switch x := in.(type) {
+			case *ssa.Send:
+				sent = x.X
+			case *ssa.Select:
+				for _, st := range x.States {
+					if st.Send != nil && derived(st.Send) {
+						sent = st.Send
+					}
+				}
+			}
+			if sent == nil || !derived(sent) {
+				return
+			}
+			if !deferredPut && f == fn {
+				// synchronous hand-off: every way from the send to the Put passes a blocking wait
+				if reachFrom(in, func(x ssa.Instruction) bool { return x == put }, waits) == nil {
+					return
+				}
+			}
+			found = true
+		})
+		if found {
+			return true
+		}
+	}
+	return false
 }
 
 // onceGuard: fn only ever runs as (part of) the function handed to Do of one sync.Once that is
@@ -706,4 +795,9 @@ func (c *Ctx) shortReadRule(rule string, pkg *types.Package) {
 	if c.ruleN[rule] == 0 {
 		c.ok(rule, "no single-Read buffering", "-", "no Read result outside a loop is used to delimit a buffer")
 	}
+}
+
+func isStringType(t types.Type) bool {
+	b, ok := t.Underlying().(*types.Basic)
+	return ok && b.Info()&types.IsString != 0
 }
